@@ -27,6 +27,12 @@ CHECKS = {
  "C09": dict(engine="sync", tech="TLA+ spec (SyncChunk) model-checked by TLC incl. a negative control (policy before the repair); TLC-enumerated size profiles replayed as real registrations in child processes; chunk traces validated by TLC (Trace_Sync)",
    text="SyncChunk.tla is model-checked for every profile of 0-3 pods x 0-11 (14) containers x sizes against the limit (InBounds, Progress, ExactDelivery, CleanFailure, JustifiedFailure, BoundedSends, termination); the transcription of the pre-repair policy must violate it (vacuity guard). Every profile (real multi-megabyte objects against ttRPC's 4 MiB limit, plus thousands of small objects) is one real plugin registration in a child process; the hook-recorded chunk sequence and the plugin's handler call must satisfy the chunk protocol: counts within what remains, correct more flags, progress, exactly one handler call with exactly the supplied state in order and intact, updates returned to the runtime's callback, failure only at the minimum chunk size and without activation, no crash, no hang.",
    ref="5/C09", note="Trusted base: TLC; hooks syncmsg.send/result; a child process per scenario makes a panic of the runtime side observable."),
+ "C10": dict(engine="mux", tech="TLA+ spec (Mux) model-checked by TLC over all interleavings incl. a no-lock negative control; executions of the real multiplexer recorded through hook points under the write lock and in the reader, validated by TLC (Trace_Mux)",
+   text="Mux.tla is model-checked (WellFormed, PrefixInv, Isolated, Complete, ChunksContiguous; without the write lock TLC must find a violation). Recorded runs of the real mux over a socket pair - concurrent writers on both ends, self-describing messages incl. empty payloads and the frame-size boundaries up to 3*max+5, queue lengths 1/2/16/256 - must be behaviours of the specification: every frame the reader parses is the next frame that entered the trunk under the write lock (no interleaving inside a message), every Read returns the head of its own connection's queue intact, and at quiescence everything written has been read, in order, per connection.",
+   ref="5/C10", note="Trusted base: TLC; the before/after logging discipline (R2); the harness' frame descriptors. Assumes connection ids opened on both ends before traffic, reader buffers of at least one frame, frames in flight within the queue length."),
+ "C11": dict(engine="mux", tech="TLA+ spec (Mux faults: Cut, CloseA, CloseB, overflow) model-checked by TLC incl. liveness AfterClose/WritersEnd; TLC-enumerated fault placements (Gen_Mux) replayed on the real mux with a byte-cutting trunk; traces validated by TLC",
+   text="Design: PrefixInv under every fault and the liveness properties AfterClose / WritersEnd are model-checked. Gen_Mux enumerates the trunk cut after byte k in either direction (every k in thorough, every 3rd in quick), a close of either end after j frames by 1, 2 or 8 concurrent closers, and overflow at every position for queue lengths 1 and 2; each is realised on the real mux in a child process (a panic is observed as such). The validated trace must show: received data always the in-order prefix (queue head) of what was sent; an overflow only when the queue really was full; no Read/Write/Close/Accept hanging (3 s watchdog); writes after the failure fail; reads return queued frames and then an error (EOF after an orderly close); second Accept returns EOF after the listener is closed.",
+   ref="5/C11", note="As C10. After an error, reads may still return frames that were already queued (conn.Read selects between the closed channel and the queue); the property's prefix clause is what is asserted."),
  "C13": dict(engine="oci", tech="TLA+ spec (Container.OciApply) with theorems SetWins/Removes/Frame checked by TLC; TLC-enumerated + random (spec, adjustment) pairs replayed on the real generator x R repetitions; TLC trace validation (Trace_Oci)",
    text="OciApply is the specification of Generator.Adjust; TLC checks on every enumerated pair that a set wins over a removal in any list order, that removals take effect and that nothing unnamed changes; every pair is applied 16 (quick) / 64 (thorough) times by the real generator on fresh copies and each result must equal OciApply, the rest of the spec must be unchanged, mounts must come parents-first and all repetitions must be identical (labels C13-result, C13-frame, C13-mount-order, C13-determinism).",
    ref="5/C13", note="Trusted base: TLC; harness/abs OCI projection; device cgroup allow rules added with devices are not compared; rshared/rslave mount options (host mountinfo) are outside the domain."),
@@ -86,6 +92,8 @@ m = {
    "add_only": True,
  },
  "engines": [
+   {"name": "mux", "path": "/verif/lib/mux.py", "serves_properties": ["C10", "C11"],
+    "kind_free_text": "TLC model checking (tla/Mux), fault placements (tla/Gen_Mux), recording driver with child isolation (harness/muxdrv, hooks in mux.go), TLC trace validation (tla/Trace_Mux)"},
    {"name": "sync", "path": "/verif/lib/sync.py", "serves_properties": ["C09"],
     "kind_free_text": "TLC (tla/SyncChunk) + real registrations in child processes (harness/syncdrv) + TLC trace validation (tla/Trace_Sync)"},
    {"name": "oci", "path": "/verif/lib/oci.py", "serves_properties": ["C13"],
